@@ -36,7 +36,7 @@ func C13(tier rt.Tier) int {
 	if tier == rt.Quick {
 		runs = []cfg{
 			{name: "3keys-levels0+64", keys: []int{0, 2, 5}, vals: []string{"a", "b"}, levels: []int{0, 64}, gc: true, rootOp: true, depth: 7, c13: true, maxNoDup: 5},
-			{name: "deep-pair", keys: []int{0, 1}, vals: []string{"a", "b"}, levels: []int{0, 1, 64}, gc: true, depth: 8, c13: true, maxNoDup: 5},
+			{name: "deep-pair", keys: []int{0, 1}, vals: []string{"a", "b", "c"}, levels: []int{0, 1, 64}, gc: true, depth: 8, c13: true, maxNoDup: 5},
 		}
 	} else {
 		per = 8 * time.Minute
